@@ -135,29 +135,38 @@ def run(ctx, anchors=None):
     c02_digests.run(ctx, fb, prog, spec)
     # ---- R02.5 ECDSA verification normalises the parsed signature in place and verifies that same object
     ctx.rule("R02.5", "CPubKey::Verify / VerifyCompact: lax-parse (or compact-parse), normalise IN PLACE, verify the normalised signature")
+    from .. import symx as _sx5
+    X5 = _sx5.Explorer(prog, inline=lambda fn, n: fn.file == "pubkey.cpp" and fn.short != "ecdsa_signature_parse_der_lax", transparent=lambda n: True)
     for name in ("CPubKey::Verify", "CPubKey::VerifyCompact"):
         f = fb.fn(name)
-        calls = [n for n in f.nodes() if n["k"] == "call"]
-        norm = [n for n in calls if n.get("n") == "secp256k1_ecdsa_signature_normalize"]
-        ver = [n for n in calls if n.get("n") == "secp256k1_ecdsa_verify"]
-        # follow one level of helper (a refactor may move parse+normalise into a static helper)
-        helper_norm = []
-        for n in calls:
-            for g in (prog.resolve(n["cid"]) if n.get("cid") else []):
-                helper_norm += [(g, m) for m in g.nodes() if m["k"] == "call" and m.get("n") == "secp256k1_ecdsa_signature_normalize"]
+        try:
+            outs5 = X5.explore(f, this=("a", "this"))
+        except _sx5.Unsupported as e:
+            raise AnalysisBroken("R02.5: %s: %s" % (name, e))
         ctx.site()
         ok = False
+        nver = 0
         why = "no call of secp256k1_ecdsa_signature_normalize on the verification path"
-        cands = [(f, m) for m in norm] + helper_norm
-        if cands and ver:
-            g, m = cands[0]
-            out_arg, in_arg = m["args"][1], m["args"][2]
-            o, i = astq.estr(out_arg), astq.estr(in_arg)
-            ok = out_arg.get("k") != "null" and o != "nullptr" and o.lstrip("&") == i.lstrip("&")
-            why = "normalize(out=%s, in=%s)" % (o, i)
-            if ok and g is f:
-                ok = astq.estr(ver[0]["args"][1]).lstrip("&") == i.lstrip("&") and f.cfg().dominates(m, ver[0])
-                why += "; verify(%s)" % astq.estr(ver[0]["args"][1])
+        for o in outs5:
+            ver = [e for e in o.events if e.kind == "call" and e.name == "secp256k1_ecdsa_verify"]
+            if not ver:
+                continue
+            nver += 1
+            before = o.events[:o.events.index(ver[0])]
+            norm = [e for e in before if e.kind == "call" and e.name == "secp256k1_ecdsa_signature_normalize" and len(e.terms) >= 3]
+            if not norm:
+                ok = False
+                why = "secp256k1_ecdsa_verify is reached without a preceding secp256k1_ecdsa_signature_normalize"
+                break
+            out_arg, in_arg = norm[-1].terms[1], norm[-1].terms[2]
+            sig_arg = ver[0].terms[1] if len(ver[0].terms) > 1 else None
+            why = "normalize(out=%s, in=%s); verify(%s)" % (_sx5.show(out_arg), _sx5.show(in_arg), _sx5.show(sig_arg))
+            ok = out_arg != _sx5.NULL and out_arg == in_arg and sig_arg == out_arg and isinstance(out_arg, tuple) and out_arg[0] == "addr"
+            if not ok:
+                break
+        if nver == 0:
+            ok = False
+            why = "no path reaches secp256k1_ecdsa_verify"
         ctx.inst(ok, "R02.5", "normalize-in-place:" + name, f.loc(), "%s: %s" % (name, why),
                  "%s does not verify the normalised signature (%s): a valid high-S signature is rejected when LOW_S is not enforced" % (name, why))
     # ---- R02.6 Schnorr signature size / hash-type byte rules (BIP341)
